@@ -782,6 +782,7 @@ result_type parse_url_impl(std::string_view user_input,
             url.username = base_url->username;
             url.password = base_url->password;
             url.host = base_url->host;
+            url.host_type = base_url->host_type;
             url.port = base_url->port;
             // cloning the base path includes cloning the has_opaque_path flag
             url.has_opaque_path = base_url->has_opaque_path;
@@ -791,6 +792,7 @@ result_type parse_url_impl(std::string_view user_input,
             url.update_base_authority(base_url->get_href(),
                                       base_url->get_components());
             url.update_host_to_base_host(base_url->get_hostname());
+            url.host_type = base_url->host_type;
             url.update_base_port(base_url->retrieve_base_port());
             // cloning the base path includes cloning the has_opaque_path flag
             url.has_opaque_path = base_url->has_opaque_path;
@@ -861,11 +863,13 @@ result_type parse_url_impl(std::string_view user_input,
             url.username = base_url->username;
             url.password = base_url->password;
             url.host = base_url->host;
+            url.host_type = base_url->host_type;
             url.port = base_url->port;
           } else {
             url.update_base_authority(base_url->get_href(),
                                       base_url->get_components());
             url.update_host_to_base_host(base_url->get_hostname());
+            url.host_type = base_url->host_type;
             url.update_base_port(base_url->retrieve_base_port());
           }
           state = state::PATH;
@@ -1137,6 +1141,7 @@ result_type parse_url_impl(std::string_view user_input,
             } else {
               url.update_host_to_base_host(base_url->get_host());
             }
+            url.host_type = base_url->host_type;
             // If the code point substring from pointer to the end of input does
             // not start with a Windows drive letter and base's path[0] is a
             // normalized Windows drive letter, then append base's path[0] to
@@ -1239,6 +1244,7 @@ result_type parse_url_impl(std::string_view user_input,
           // Set url's host to base's host, url's path to a clone of base's
           // path, and url's query to base's query.
           ada_log("FILE base non-null");
+          url.host_type = base_url->host_type;
           if constexpr (result_type_is_ada_url) {
             url.host = base_url->host;
             url.path = base_url->path;
